@@ -14,7 +14,6 @@ package serix
 -- fixed-size arrays are decoded through a slice of the array's own length: fillArrayFromSlice indexes the array at every
 -- index of the slice it is given (reflect panics beyond the array), so that slice must not be longer than the array -
 -- in particular it must not be the decoded input itself (rlen: the length of an array / slice value, reflect model)
-specfun rlen(v S_reflect.Value) Int
 assume-func github.com/iotaledger/hive.go/serializer/v2/serix.sliceFromArray(arrValue) (r)
   ensures rlen(r) == rlen(arrValue)
 assume-func github.com/iotaledger/hive.go/serializer/v2/serix.fillArrayFromSlice(arrayValue, sliceValue)
